@@ -1,7 +1,10 @@
 /-
   PW.Model.SliceByPlane — model of
-    polliwog/plane/_plane_intersect.py      intersect_segment_with_plane      ↦ `intersectSegmentWithPlane`
     polliwog/polyline/_slice_by_plane.py    slice_open_polyline_by_plane      ↦ `sliceOpenRuns`   (code-shaped)
+                                            its local `intersection_with_plane` ↦ `crossing`
+    polliwog/plane/_plane_intersect.py      intersect_segment_with_plane      ↦ `intersectSegmentWithPlane`
+                                            (no longer called by the slicer since /repo f9870c4; still modelled and
+                                             compared by the `slice.isect` driver op, and related to `crossing` by a theorem)
     polliwog/polyline/_polyline_object.py   Polyline.sliced_by_plane          ↦ `slicedByPlane`
   and the declarative specification `sliceSpec` the property C06 is stated against.
   Mathlib-free; polymorphic over the number type.  Everything lives in `namespace PW.SBP` (slice-by-plane).
@@ -14,14 +17,18 @@
     signs[concatenate([[0], tp + 1])]            ↦ `componentSigns`
     (component_signs == 1).nonzero()             ↦ `nonzeroFrom 0 (componentSigns.map (· == 1))`
     the three `raise ValueError`, in the code's order; the prepend / append blocks
-    a NaN row of `intersect_segment_with_plane`  ↦ `none`   (rows of the result are `Option (V3 K)`; the theorems show
-                                                              that every returned row is `some`)
+    intersection_with_plane(start, end)          ↦ `crossing pl start end` = start + d_s / (d_s − d_e) * (end − start) with
+                                                   (d_s, d_e) = plane.signed_distance([start, end]) — the *same* signed
+                                                   distances that decided the signs; no range test, no NaN assignment
+    plane.signed_distance / np.sign as observed  ↦ `GivenVertex` (vertex + the sign and signed distance the implementation
+                                                   computed for it): `slicedByPlaneGiven` runs the same kernel on them, so that
+                                                   inputs within rounding error of the plane are compared on determined signs
     np.roll(v, roll, axis=0)                     ↦ `npRoll v roll`  (roll : Int, as computed by the code)
     np.vstack([working_v, working_v[:1]])        ↦ `w ++ w.take 1`
 
   The list bookkeeping is written once, generically in the vertex type `α`, the sign function `sg : α → Int`, the
   crossing function `cross : α → α → β` and the embedding `keep : α → β` of a kept vertex (`sliceOpenRunsG`,
-  `sliceSpecG`, …); the geometric instances plug in `Plane.sign` and `intersect_segment_with_plane`.
+  `sliceSpecG`, …); the geometric instances plug in `Plane.sign` and `crossing`.
 -/
 import PW.Model.Plane
 import PW.Model.PolylineBase
@@ -227,28 +234,46 @@ def intersectSegmentWithPlane (start segv ref n : V3 K) : Option (V3 K) :=
   else if num < 0 ∨ 0 < num then none
   else some (start + V3.smul 0 segv)
 
-/-- the call made by the slicer for the segment `a → b` -/
+/-- `intersect_segment_with_plane` for the segment `a → b` (the call the slicer made before /repo f9870c4) -/
 def crossSeg (pl : Plane K) (a b : V3 K) : Option (V3 K) :=
   intersectSegmentWithPlane a (b - a) pl.ref pl.n
 
-/-- the crossing point of the specification: `a + (d_a / (d_a − d_b)) (b − a)` -/
+/-- `intersection_with_plane(a, b)` of the slicer, and the crossing point of the specification:
+    `a + (d_a / (d_a − d_b)) (b − a)`.  Only called when `d_a`, `d_b` have strictly opposite signs, so `d_a − d_b ≠ 0`. -/
 def crossing (pl : Plane K) (a b : V3 K) : V3 K :=
   a + V3.smul (pl.signedDistance a / (pl.signedDistance a - pl.signedDistance b)) (b - a)
 
 /-- `slice_open_polyline_by_plane(vertices, plane)` — code-shaped -/
-def sliceOpenRuns (pl : Plane K) (vs : List (V3 K)) : Res (List (Option (V3 K))) :=
-  sliceOpenRunsG pl.sign (crossSeg pl) some vs
+def sliceOpenRuns (pl : Plane K) (vs : List (V3 K)) : Res (List (V3 K)) :=
+  sliceOpenRunsG pl.sign (crossing pl) id vs
 
-/-- proof-shaped twin of `sliceOpenRuns` (same calls to `intersect_segment_with_plane`) -/
-def sliceOpenSpan (pl : Plane K) (vs : List (V3 K)) : Res (List (Option (V3 K))) :=
-  sliceSpanG pl.sign (crossSeg pl) some vs
+/-- proof-shaped twin of `sliceOpenRuns` -/
+def sliceOpenSpan (pl : Plane K) (vs : List (V3 K)) : Res (List (V3 K)) :=
+  sliceSpanG pl.sign (crossing pl) id vs
 
 /-- `Polyline.sliced_by_plane(plane)`: rows and `is_closed` of the returned polyline -/
-def slicedByPlane (pl : Plane K) (p : Polyline K) : Res (List (Option (V3 K)) × Bool) :=
-  slicedByPlaneG pl.sign (crossSeg pl) some p.closed p.v
+def slicedByPlane (pl : Plane K) (p : Polyline K) : Res (List (V3 K) × Bool) :=
+  slicedByPlaneG pl.sign (crossing pl) id p.closed p.v
 
-def slicedByPlaneSpan (pl : Plane K) (p : Polyline K) : Res (List (Option (V3 K)) × Bool) :=
-  slicedByPlaneSpanG pl.sign (crossSeg pl) some p.closed p.v
+def slicedByPlaneSpan (pl : Plane K) (p : Polyline K) : Res (List (V3 K) × Bool) :=
+  slicedByPlaneSpanG pl.sign (crossing pl) id p.closed p.v
+
+/-- a vertex together with the sign and the signed distance `plane.sign` / `plane.signed_distance` returned for it -/
+structure GivenVertex (K : Type) where
+  v : V3 K
+  sign : Int
+  d : K
+
+/-- `intersection_with_plane` on observed signed distances -/
+def GivenVertex.crossing (a b : GivenVertex K) : V3 K :=
+  a.v + V3.smul (a.d / (a.d - b.d)) (b.v - a.v)
+
+/-- annotate a vertex with what the model computes for it -/
+def annotate (pl : Plane K) (p : V3 K) : GivenVertex K := ⟨p, pl.sign p, pl.signedDistance p⟩
+
+/-- `Polyline.sliced_by_plane` with the signs and signed distances taken as data (the same kernel as `slicedByPlane`) -/
+def slicedByPlaneGiven (closed : Bool) (gs : List (GivenVertex K)) : Res (List (V3 K) × Bool) :=
+  slicedByPlaneG GivenVertex.sign GivenVertex.crossing GivenVertex.v closed gs
 
 /-- **The specification.**  The unique maximal run of vertices strictly in front of the plane (cyclic when `closed`),
     extended at each end where the path leaves the front side by the neighbouring vertex when it is on the plane and
